@@ -857,10 +857,12 @@ def family_A(seed: int, count: int) -> List[Spec]:
 # ---------------------------------------------------------------------------------------
 # Family X: timers (after), slow actions; small machines, a fixed event vocabulary
 
-def family_X(seed: int, count: int) -> List[Spec]:
+def family_X(seed: int, count: int, *, race=False) -> List[Spec]:
     rng = random.Random(seed)
     out = []
     shapes = ["single", "equal_pair", "two_delays", "periodic", "named", "nested", "parallel"]
+    if race:
+        shapes = shapes + ["start_race", "send_race"]
     for i in range(count):
         shape = shapes[i % len(shapes)]
         d1, d2 = rng.choice([(50, 80), (50, 50), (80, 50)])
@@ -898,6 +900,13 @@ def family_X(seed: int, count: int) -> List[Spec]:
                             "r2": {"initial": "u", "entry": ["en:m.A.r2"], "exit": ["ex:m.A.r2"],
                                    "states": {"u": {"entry": ["en:m.A.r2.u"], "exit": ["ex:m.A.r2.u"],
                                                     "after": {str(d2): {"target": "#m.B", "actions": ["tr:af2"]}}}}}}}
+        elif shape in ("start_race", "send_race"):
+            # an entry action raises while the state owns a live timer and an eventless transition leaves it:
+            # leaving suspends in the timer's cancellation, with the raised event already queued
+            A["entry"] = ["en:m.A", {"type": "xstate.raise", "params": {"event": "E"}}]
+            A["after"] = {str(d1): {"target": "#m.C", "actions": ["tr:af1"]}}
+            A["always"] = {"target": "#m.B", "actions": ["tr:al"], **({"guard": "ga"} if shape == "send_race" else {})}
+            A["on"]["E"] = {"target": "#m.C", "actions": ["tr:e"]}
         A["on"].update({"RE": {"target": "#m.A", "reenter": True, "actions": ["tr:re"]},
                         "GO": {"target": "#m.B", "actions": ["tr:go"]},
                         "NOP": {"actions": ["tr:nop"]}})
